@@ -160,5 +160,5 @@ def check(run, views, tier):
                            "%s on accumulated parser state (%s) with no bounding guard, not amortised by a pop/take, and no nesting limit: cost is amplified by nesting / width [%s]" % (
                                name, oty[:60], " && ".join(cshow(c) for c in conds)[-160:]), site(body, node), key="R-COSTSITES|%s|%s|%s" % (fn, name.split("::")[-1], base[:40]))
         run.floor("R-COSTSITES", n_sites, 12, "cost sites (loops and linear-cost calls) in the parse cone")
-        run.floor("R-COSTSITES", len(fns), 35, "functions in the parse cone")
+        run.floor("R-COSTSITES", len(fns), 35 if "async" in F.features else 20, "functions in the parse cone")
         run.meta.setdefault("coverage_extra", {})["classes_" + cfg] = {str(k): v for k, v in classes.items()}
